@@ -157,7 +157,14 @@ struct FillV : VisitorBase<FillV> {
     template<class C> void str(const std::string & p, std::basic_string<C> & s) {
         size_t n = len_for(p);
         s.resize(n);
-        for (size_t i = 0; i < n; i++) s[i] = (C)('a' + (counter++ % 20));
+        /* strings are length-prefixed byte strings in the format: NUL bytes inside them are values like any other */
+        for (size_t i = 0; i < n; i++) {
+            C ch = (C)('a' + (counter++ % 20));
+            if (pattern == P_ZERO) ch = 0;
+            else if (pattern == P_FF) ch = (C)0xff;
+            else if (pattern == P_8070 && (i % 2) == 1) ch = 0;      /* "a\0b": a terminator-like byte followed by more text */
+            s[i] = ch;
+        }
     }
 };
 
